@@ -87,6 +87,15 @@ def gen_cases(ctx):
         else:
             D = rng.choice([2, 3])
             cases.append({"kind": "ctrl", "m": [rng.randint(1, 300) for _ in range(D)], "s": [rng.randint(1, 16) for _ in range(D)]})
+    for _ in range(ctx.n(12, 100)):
+        D = rng.choice([1, 2, 3]) if False else rng.choice([2, 3])
+        ms = [rng.randint(1, 40) for _ in range(D)]
+        ss = [rng.randint(1, 16) for _ in range(D)]
+        nn = [ctrl(a, b) for a, b in zip(ms, ss)]
+        cases.append({"kind": "ctrlgrid", "D": D, "size": ms, "stride": ss if rng.random() < 0.8 else [ss[0]] * D,
+                      "seq": rng.random() < 0.5, "spacing": [rng.choice([0.5, 1.0, 2.0, 0.25]) for _ in range(D)],
+                      "center": [rng.choice([0.0, 1.0, -2.5]) for _ in range(D)],
+                      "ks": [[rng.randint(0, k - 1) for k in nn] for _ in range(3)] + [[0] * D, [k - 1 for k in nn]]})
     for i in range(n):
         kind = ["eval", "eval", "eval", "subdiv", "ffd", "sderiv"][i % 6]
         if kind == "eval":
@@ -109,9 +118,8 @@ def gen_cases(ctx):
                 c["ms"] = [(k - 3) * s_ for k, s_ in zip(nn, ss)]
             cases.append(c)
         elif kind == "subdiv":
-            D = rng.choice([2, 2, 3])
-            nn = [rng.randint(1 if rng.random() < 0.2 else 2, 6 if D == 2 else 4) for _ in range(D)]
-            nn = [max(2, k) for k in nn]
+            D = rng.choice([1, 2, 2, 3])
+            nn = [rng.randint(2, 9 if D == 1 else (6 if D == 2 else 4)) for _ in range(D)]
             dims = None if rng.random() < 0.4 else sorted(rng.sample(range(D), rng.randint(1, D)))
             cases.append({"kind": "subdiv", "D": D, "nn": nn, "dims": dims, "data": rand_tensor(rng, [1, 1] + list(reversed(nn)))})
         elif kind == "ffd":
@@ -132,7 +140,7 @@ def gen_cases(ctx):
             ss = [rng.randint(1, 3) for _ in range(D)]
             N = rng.choice([1, 2])
             letters = "xyz"[:D]
-            keys = [a for a in letters] + [a + b for a in letters for b in letters if a <= b]
+            keys = [a for a in letters] + [a + b for a in letters for b in letters]
             which = rng.sample(keys, rng.randint(1, 3))
             form = rng.randrange(4)
             spv = [[rng.choice([0.5, 1.0, 2.0, 0.25]) for _ in range(D)] for _ in range(N)]
@@ -159,6 +167,7 @@ def ev_term(D, der, ss, data, ms, transpose=False):
 
 
 CLOSE = {1: "vclose", 2: "mclose", 3: "tclose"}
+ALONG1 = "(fun f c => f c)"
 
 
 def case_terms(c, r):
@@ -181,6 +190,18 @@ def case_terms(c, r):
         if not r["scalar"]:
             return [None]
         return [f"Z.eqb (gen_ctrl_size {c['m']} {c['s']}) {r['val']}"]
+    if k == "ctrlgrid":
+        ss = c["stride"]
+        nn = [ctrl(a, b) for a, b in zip(c["size"], ss)]
+        if r["size"] != nn:
+            return [None]
+        out = []
+        for kk, idx in zip(c["ks"], r["index"]):
+            # control point k along an axis with origin 0 and spacing 1 (image index units): gen_ctrl_origin 0 1 s + gen_ctrl_spacing 1 s * k
+            want = coq_list([f"(Qcplus (gen_ctrl_origin (K:=QcF) (q 0 1) (q 1 1) (q {s_} 1)) (Qcmult (gen_ctrl_spacing (K:=QcF) (q 1 1) (q {s_} 1)) (q {k_} 1)))"
+                             for s_, k_ in zip(ss, kk)])
+            out.append(f"vclose tol32 {want} {nest(idx)}")
+        return out
     if k == "eval":
         D = c["D"]
         out = []
@@ -202,7 +223,7 @@ def case_terms(c, r):
         t = nest(c["data"][0][0])
         for d_ in dims:  # spatial dim 0 = x
             ax = "xyz"[d_]
-            t = f"(along_{ax}{D} (subdiv1 (K:=QcF)) {t})"
+            t = f"(subdiv1 (K:=QcF) {t})" if D == 1 else f"(along_{ax}{D} (subdiv1 (K:=QcF)) {t})"
         return [f"{CLOSE[D]} tol {t} {nest(r['val'][0][0])}"]
     if k == "ffd":
         D = c["D"]
@@ -252,7 +273,7 @@ def tag_of(c):
     k = c["kind"]
     if k == "eval":
         return f"eval:D{c['D']}:{'transpose' if c['transpose'] else 'default'}:{'deriv' if any(c['derivative']) else 'value'}"
-    if k in ("subdiv", "ffd", "sderiv"):
+    if k in ("subdiv", "ffd", "sderiv", "ctrlgrid"):
         return f"{k}:D{c['D']}" + (":refine" if c.get("refine") else "")
     return k
 
@@ -296,6 +317,7 @@ def correspondence(ctx):
     return {"evaluations": n_eval, "distinct_nontrivial": len({str(c) for c in cases}),
             "rule": "weights: every stride 1..16 x derivative 0..4 (thorough; a third of them quick); cubic_bspline1d kernels; "
                     "cubic_bspline_value at knots, mid-points and random dyadic points; control grid sizes (scalar and sequence forms); "
+                    "control grid placement (image index of control points, anisotropic spacing, shifted centre); "
                     "evaluate_cubic_bspline for D=1..3, random image sizes / strides (mostly non-divisible), derivative orders 0..3, "
                     "both algorithms, cropped by size= / shape= / not at all, N x C in {1x1, 2x1, 1x2}, random dyadic coefficients; "
                     "subdivide_cubic_bspline along random axis subsets; FreeFormDeformation update().u and grid_(finer) params + u; "
@@ -370,7 +392,8 @@ MANIFEST_ENTRY = {
             "are reproduced at every sample for all image sizes and strides in D = 1, 2, 3 with derivative modes returning the slope; "
             "grouped-convolution + reshuffle structure equals the tensor-product closed form (1-D, all sizes); the transposed-"
             "convolution algorithm equals the default one (D = 1, 2, 3, all sizes / strides); the control grid covers every sample "
-            "and is minimal (all m, s >= 1); the subdivision stencils satisfy the two-scale relation and subdivision / FFD grid "
+            "and is minimal (all m, s >= 1) and control point k lies at image index (k-1)*stride (origin / spacing traced from "
+            "cubic_bspline_control_point_grid); the subdivision stencils satisfy the two-scale relation and subdivision / FFD grid "
             "refinement preserves the spline (1-D, all lengths; repeated refinement by induction). Tie: Gen/BSpline.v is regenerated "
             "from bspline.py / kernels.py by symbolic tracing on every run (weights, B pieces, stencils, size formula; the index glue of "
             "evaluate_cubic_bspline is checked symbolically against the closed form on small sizes), and the executable model is "
@@ -378,5 +401,5 @@ MANIFEST_ENTRY = {
     "note": "Partial: subdivision / refinement theorems are 1-D (the per-axis composition in D > 1 is checked symbolically by the "
             "translator and numerically); the N-D default algorithm's separable passes are tied to the closed form by the translator's "
             "symbolic check + correspondence, not by a Coq proof; torch.arange(0,1,1/s) float behaviour (breaks at stride 49, outside the "
-            "property's range) and float32 rounding are outside the model. Known findings: control point grid spacing; 1-D subdivide rejected.",
+            "property's range) and float32 rounding are outside the model. Repaired in /repo (98fa26a, 0a33d67, c621c1b): control point grid spacing, 1-D subdivide, bspline-mode keys -- now covered by C14_control_point_placement, the 1-D subdivision correspondence and unsorted keys in the sderiv cases.",
 }
